@@ -3,7 +3,7 @@
    deviation F3 and for the rule before the F4 fix and Print Assumptions.
    Model: Factory/Model.v (+ Factory/Scenario.v for concrete histories); proofs: Factory/Conserve.v. *)
 From Coq Require Import List NArith Bool Permutation.
-From RV Require Import Factory.Model Factory.Scenario Factory.Oracle Factory.Conserve Factory.RouteCouple.
+From RV Require Import Factory.Model Factory.Scenario Factory.Oracle Factory.Conserve Factory.ConserveRet Factory.RouteCouple.
 Import ListNotations.
 Local Open Scope N_scope.
 
@@ -89,11 +89,18 @@ Theorem C13_one_per_death : forall c n d rls ls a,
   (length (lost_ids (step c w (LWDie a))) <= length (lost_ids w) + 1)%nat.
 Proof. exact one_per_death. Qed.
 
+(* (9) "returned to the submitter" is not a fate of its own: a job comes back through its
+   acceptance port only in the rejection that also tells the discard handler, for every history *)
+Theorem C13_returned_is_discarded : forall c n d rls ls j,
+  In (ERet j) (evs (run c (init c n d rls) ls)) ->
+  exists r, In (EDisc j r) (evs (run c (init c n d rls) ls)).
+Proof. exact returned_is_discarded. Qed.
+
 (* OPEN (not proved; stated for the record):
    C13_terminal (global form): fstatus w = FStopped -> live_jobs w = [] for every reachable w. The
    local halves are (7); the global form additionally needs the frame invariants "held -> running",
    "nothing is queued while the factory is not running" and "dead actors hold nothing".
-   returned subset discarded (checked by the oracle on every run). *)
+   *)
 
 (* ---- pins *)
 Check (C13_places_partition : forall c n d rls ls,
@@ -170,3 +177,4 @@ Print Assumptions C13_stop_discards_queues.
 Print Assumptions C13_finalize_empties.
 Print Assumptions C13_worker_holds_one.
 Print Assumptions C13_one_per_death.
+Print Assumptions C13_returned_is_discarded.
